@@ -531,17 +531,22 @@ def check_c13(run):
         cs = [("1d-h5", fmm_constants(1, 5, POOL_1D_H5[:7], bss=(1, 2, 3, 20), hists=hists)),
               ("2d-h4", fmm_constants(2, 4, POOL_2D_H4[:6], bss=(1, 2, 20), hists=hists)),
               ("3d-h3", fmm_constants(3, 3, POOL_3D_H3[:5], bss=(1, 2), hists=hists)),
-              ("1d-h4-multi", fmm_constants(1, 4, range(4), maxper=2, bss=(1, 2), hists=hists))]
+              ("1d-h4-multi", fmm_constants(1, 4, range(4), maxper=2, bss=(1, 2), hists=hists)),
+              ("tsm-1d-h5", fmm_constants(1, 5, POOL_1D_H5[3:7], mode="tsm", bss=(1, 2, 20), hists=hists)),
+              ("tsm-2d-h3", fmm_constants(2, 3, [0, 3, 9, 15], mode="tsm", maxparts=2, bss=(1, 2), hists=hists))]
     else:
         cs = [("1d-h5", fmm_constants(1, 5, POOL_1D_H5[:9], bss=(1, 2, 3, 20), hists=hists)),
               ("2d-h4", fmm_constants(2, 4, POOL_2D_H4[:8], bss=(1, 2, 3, 20), hists=hists)),
               ("3d-h3", fmm_constants(3, 3, POOL_3D_H3[:7], bss=(1, 2, 20), hists=hists)),
               ("4d-h3", fmm_constants(4, 3, POOL_4D_H3[:5], bss=(1, 2), hists=hists)),
-              ("1d-h4-multi", fmm_constants(1, 4, range(6), maxper=2, bss=(1, 2, 3), hists=hists))]
+              ("1d-h4-multi", fmm_constants(1, 4, range(6), maxper=2, bss=(1, 2, 3), hists=hists)),
+              ("tsm-1d-h5", fmm_constants(1, 5, POOL_1D_H5[2:8], mode="tsm", bss=(1, 2, 3, 20), hists=hists)),
+              ("tsm-2d-h3", fmm_constants(2, 3, [0, 3, 6, 9, 15], mode="tsm", maxparts=3, bss=(1, 2, 20), hists=hists)),
+              ("tsm-3d-h3", fmm_constants(3, 3, POOL_3D_H3[:4], mode="tsm", maxparts=2, bss=(1, 2), hists=hists))]
     run_fmm_configs(run, "C13", cs)
     run.coverage["rule"] = FMM_RULE + "; histories: execute / rebuild / execute (results must hold exactly two full interactions), and moves of one or two particles to the next pool leaf (emptying and creating leaves, changing the number of groups) followed by rebuild and execute, twice; after every rebuild the real tree must equal the fresh build TLC computed from the edited particles, keep index, data and results bit-exactly and have zeroed expansions"
     run.coverage["exhaustive"] = True
-    run.assumptions += FMM_ASSUME + ["rebuild of target/source, periodic and Hilbert trees is compiled and run by C19's matrix"]
+    run.assumptions += FMM_ASSUME + ["target/source trees: the moved particle is a target, TbfTreeTsm::rebuild() re-bins both trees; rebuild of periodic and Hilbert trees is compiled and run by C19's matrix"]
 
 
 @check("C18", "model_checking")
